@@ -78,6 +78,7 @@ type TB struct {
 	ufs  map[string]*UFDecl
 	syms map[string]Sort
 	low  map[int]bool // BV32 terms known to denote input-world object ids (< lowLimit)
+	noGlob map[int]bool // BV32 terms (object ids) that never denote a package-level variable
 	eqMemo map[[2]int]*Term
 }
 
@@ -88,6 +89,35 @@ func (tb *TB) MarkLow(t *Term) {
 	if t.Sort.K == KBV && t.Sort.W == 32 && t.Op != "bv" {
 		tb.low[t.id] = true
 	}
+}
+
+// Package-level variables have the object ids globalBase .. globalBase+globalBand-1.
+const globalBase = 16
+const globalBand = 1 << 16
+
+// MarkNoGlob records that t is the object id of a pointer whose target type does not occur
+// in any package-level variable: it never equals the id of one.
+func (tb *TB) MarkNoGlob(t *Term) {
+	if t.Sort.K == KBV && t.Sort.W == 32 && t.Op != "bv" {
+		tb.noGlob[t.id] = true
+	}
+}
+
+func isGlobConst(t *Term) bool {
+	return t.Op == "bv" && t.Sort.W == 32 && t.Val.IsInt64() && t.Val.Int64() >= globalBase && t.Val.Int64() < globalBase+globalBand
+}
+
+func (tb *TB) isNoGlob(t *Term) bool {
+	if t.Op == "bv" {
+		return t.Sort.W == 32 && !isGlobConst(t)
+	}
+	if tb.noGlob[t.id] {
+		return true
+	}
+	if t.Op == "ite" {
+		return tb.isNoGlob(t.Args[1]) && tb.isNoGlob(t.Args[2])
+	}
+	return false
 }
 
 func (tb *TB) isLow(t *Term) bool {
@@ -119,7 +149,7 @@ type UFDecl struct {
 }
 
 func NewTB() *TB {
-	return &TB{tab: map[string]*Term{}, ufs: map[string]*UFDecl{}, syms: map[string]Sort{}, low: map[int]bool{}, eqMemo: map[[2]int]*Term{}}
+	return &TB{tab: map[string]*Term{}, ufs: map[string]*UFDecl{}, syms: map[string]Sort{}, low: map[int]bool{}, noGlob: map[int]bool{}, eqMemo: map[[2]int]*Term{}}
 }
 
 func (tb *TB) mk(t *Term) *Term {
@@ -400,6 +430,9 @@ func (tb *TB) eq(a, b *Term) *Term {
 	}
 	if a.Sort.K == KBV {
 		if isHighConst(a) && tb.isLow(b) || isHighConst(b) && tb.isLow(a) {
+			return tb.False()
+		}
+		if isGlobConst(a) && tb.isNoGlob(b) || isGlobConst(b) && tb.isNoGlob(a) {
 			return tb.False()
 		}
 		// push a comparison with a constant into an ite when both sides decide
